@@ -112,12 +112,16 @@ func cmdVerify(args []string) {
 			mark := "ok "
 			if o.Status != "discharged" {
 				mark = "!! "
-				bad++
+				if o.Kind != "cover" || o.Status == "failed" {
+					bad++
+				} else {
+					mark = "?? "
+				}
 			}
 			if *verbose || o.Status != "discharged" {
 				fmt.Printf("   %s%-70s %-10s %-8s %5dms %6dB  [o%05d]\n", mark, o.Name, o.Status, o.Solver, o.TimeMS, o.SMTSize, i)
 				if o.Status == "failed" && o.Model != "" {
-					fmt.Println("      model:", strings.ReplaceAll(o.Model, "\n", "\n      "))
+					m := o.Model; if len(m) > 700 { m = m[:700] + "..." }; fmt.Println("      model:", strings.ReplaceAll(m, "\n", "\n      "))
 				}
 			}
 		}
